@@ -145,7 +145,8 @@ def floors(tier):
                     "net_orient_direct": 800, "net_orient_inverse": 800, "net_orient_double": 800,
                     "net_multi_vertex": 900, "net_header_0": 500, "net_header_1": 500, "net_loop": 300,
                     "net_ENU": 600, "net_GEO": 300,
-                    "wkt_exponent": 500, "wkt_integer": 300, "wkt_ENU": 500, "wkt_GEO": 250},
+                    "wkt_exponent": 500, "wkt_integer": 300, "wkt_ENU": 500, "wkt_GEO": 250,
+                    "track_of_500+_observations": 30, "gpx_with_analytical_features": 300},
         "distinct_nontrivial": 7000 * s,
     }
 
@@ -311,10 +312,18 @@ def pick_tfmt(rng, sep, exclude=()):
     return rng.choice(cands)
 
 
-def gen_track_data(rng, srid, tfmt, n=None, zero_z=False):
+def gen_track_data(rng, srid, tfmt, n=None, zero_z=False, big=False):
     if n is None:
         n = rng.choice([1, 1, 2, 2, 3, 3, 4, 5, 6, 7, 8, 8])
     y2 = TF_INFO.get(tfmt, (False, False))[1]
+    if big:
+        # larger scale: a log of hundreds / thousands of fixes, one or two seconds apart
+        n = rng.choice([500, 501, 640, 1000, 1001, 1200, 2500])
+        t, ts = gen_times(rng, 1, y2)[0], []
+        for _ in range(n):
+            ts.append(t)
+            t += 1000 * rng.choice([1, 1, 1, 2])
+        return {"pts": gen_points(rng, srid, n, zero_z), "t_ms": ts, "big": 1}
     return {"pts": gen_points(rng, srid, n, zero_z), "t_ms": gen_times(rng, n, y2)}
 
 
@@ -332,16 +341,23 @@ def gen_csv_step(rng, srid=None, cols=None, sep=None, h=None, wapi=None, rapi=No
     # global read format at TrackFormat construction
     st["tf_mode"] = "global" if st["rapi"] == "readFromCsv" else rng.choice(["explicit", "explicit", "global"])
     st["other_fmt"] = rng.choice([f for f, _, _ in TIME_FMTS if f != tfmt])
-    st.update(gen_track_data(rng, srid, tfmt))
+    st.update(gen_track_data(rng, srid, tfmt, big=rng.random() < 0.012))
     return st
 
 
 def gen_gpx_step(rng, srid=None, zero_z_enu=False):
     srid = srid or rng.choice(["GEO", "ENU"])
     ntr = rng.choice([1, 1, 1, 2, 3])
+    big = rng.random() < 0.012
     tracks = [gen_track_data(rng, srid, GPX_READ_FMT, zero_z=(zero_z_enu and srid == "ENU") or
-                             (srid == "ENU" and rng.random() < 0.25)) for _ in range(ntr)]
-    return {"kind": "gpx", "srid": srid, "tracks": tracks,
+                             (srid == "ENU" and rng.random() < 0.25), big=big and k == 0) for k in range(ntr)]
+    # the documented af option: the analytical features are exported too (as <extensions>); legal feature names that
+    # begin like a GPX element (ele.., time.., trk..) or are quite ordinary
+    af = None
+    if rng.random() < 0.3:
+        af = rng.sample(["speed", "elev_gain", "elevation", "ele2", "time_gap", "timer", "abs_curv", "trk2", "name2",
+                         "lat2", "Ele", "times"], rng.choice([1, 2, 3]))
+    return {"kind": "gpx", "srid": srid, "tracks": tracks, "af": af,
             "rapi": rng.choice(["readFromGpx", "readFromFile"]),
             "one_file": rng.random() >= 0.3,
             "print_fmt": rng.choice([f for f, _, _ in TIME_FMTS])}
@@ -724,6 +740,12 @@ def step_gpx(st, ctx, work, si):
     from tracklib.core.track_collection import TrackCollection
     tracks = [gen.make_track(d["pts"], d["t_ms"], coord=st["srid"]) for d in st["tracks"]]
     exps = [_truth(t) for t in tracks]
+    af = bool(st.get("af"))
+    if af:
+        for t in tracks:
+            for j, name in enumerate(st["af"]):
+                t.createAnalyticalFeature(name, [1000.0 + 17 * j + i for i in range(t.size())])
+        ctx.count("gpx_written_with_analytical_features")
     path = os.path.join(work, "c13_%d_%d.gpx" % (os.getpid(), si))
     _set_formats(GPX_READ_FMT, st["print_fmt"])
     ctx.monitor("gpx.roundtrip")
@@ -737,7 +759,7 @@ def step_gpx(st, ctx, work, si):
         if not st.get("one_file", True):
             # one file per track, named <tid>.gpx, written into a directory
             return _step_gpx_per_track(st, ctx, work, si, tracks, exps)
-        w = M.call(TrackWriter.writeToGpx, obj, path, False, True)
+        w = M.call(TrackWriter.writeToGpx, obj, path, af, True)
         if M.is_raised(w):
             if w.type in REJECTIONS:
                 raise _Ood("writer rejects the configuration: " + w.type)
@@ -778,7 +800,7 @@ def _step_gpx_per_track(st, ctx, work, si, tracks, exps):
         for k, t in enumerate(tracks):
             t.tid = 100 + k
             obj.addTrack(t)
-        w = M.call(TrackWriter.writeToGpx, obj, d, False, False)
+        w = M.call(TrackWriter.writeToGpx, obj, d, bool(st.get("af")), False)
         if M.is_raised(w):
             if w.type in REJECTIONS:
                 raise _Ood("writer rejects the configuration: " + w.type)
@@ -982,6 +1004,10 @@ def _classes(case):
     for st in steps:
         k = st["kind"]
         cls.add(k)
+        if st.get("big") or any(d.get("big") for d in st.get("tracks", []) if isinstance(d, dict)):
+            cls.add("track_of_500+_observations")
+        if st.get("af"):
+            cls.add("gpx_with_analytical_features")
         before = len(cls)
         if k == "csv":
             cls.add("srid_" + st["srid"])
@@ -1085,8 +1111,8 @@ def run_case(case, ctx):
     st0 = case["steps"][first["step"]]
     what = "%s round trip (step %d of %d): %s" % (st0["kind"], first["step"] + 1, len(case["steps"]), first["tag"])
     mech = [{"step": m["step"], "tag": m["tag"], "k": m.get("k", 0), "i": m.get("i", -1)} for m in mism]
-    witness = {"what": what, "n_mismatches": len(mism), "mismatches": mism[:8], "mech": mech[:400],
-               "mech_truncated": len(mech) > 400}
+    witness = {"what": what, "n_mismatches": len(mism), "mismatches": mism[:8], "mech": mech[:12000],
+               "mech_truncated": len(mech) > 12000}
     return violated(witness, sig, nontrivial, cls)
 
 
